@@ -60,7 +60,15 @@ where
         let store = Vec::from(bytes);
         // add data to entries
         for entry in &mut entries {
-            let mut remaining = &bytes[entry.offset as usize..];
+            let mut remaining = usize::try_from(entry.offset)
+                .ok()
+                .and_then(|offset| bytes.get(offset..))
+                .ok_or_else(|| {
+                    Error::Nom(format!(
+                        "offset {} of tag {} is outside of the data section",
+                        entry.offset, entry.tag
+                    ))
+                })?;
 
             match &mut entry.data {
                 IndexData::Null => {}
@@ -90,7 +98,7 @@ where
                     for _ in 0..entry.num_items {
                         let (rest, raw_string) = complete::take_till(|item| item == 0)(remaining)?;
                         // the null byte is still in there.. we need to cut it out.
-                        remaining = &rest[1..];
+                        remaining = rest.get(1..).ok_or_else(unterminated_string)?;
                         let string = String::from_utf8_lossy(raw_string).to_string();
                         strings.push(string);
                     }
@@ -476,6 +484,10 @@ pub struct FileEntry {
     pub ima_signature: Option<String>,
 }
 
+fn unterminated_string() -> Error {
+    Error::Nom("string in the data section is not terminated".to_string())
+}
+
 fn parse_entry_data_number<'a, T, E, F>(
     mut input: &'a [u8],
     num_items: u32,
@@ -486,7 +498,8 @@ where
     E: nom::error::ParseError<&'a [u8]>,
     F: Fn(&'a [u8]) -> nom::IResult<&'a [u8], T, E>,
 {
-    items.reserve_exact(num_items as usize);
+    // the count is untrusted, do not reserve more than the input could possibly hold
+    items.reserve_exact((num_items as usize).min(input.len() / std::mem::size_of::<T>().max(1)));
     for _ in 0..num_items {
         let (rest, data) = parser(input)?;
         items.push(data);
